@@ -65,10 +65,17 @@ func vhEqTry[T comparable](a, b fp.Try[T]) bool {
 }
 
 // extensional equality at a fresh symbolic initial state
+// A StateT program is a value: it is run a second time from another symbolic state and must again agree.
 func vhEq[T comparable](a, b fp.StateT[int, T]) bool {
 	s0 := zz.Int("s0")
 	ra, sa := a(s0)
 	rb, sb := b(s0)
+	if !(vhEqTry(ra, rb) && sa == sb) {
+		return false
+	}
+	s1 := zz.Int("s1")
+	ra, sa = a(s1)
+	rb, sb = b(s1)
 	return vhEqTry(ra, rb) && sa == sb
 }
 
@@ -85,29 +92,41 @@ func vhSliceEq(x, y []int) bool {
 }
 
 func vhEqSlice(a, b fp.StateT[int, []int]) bool {
-	s0 := zz.Int("s0")
-	ra, sa := a(s0)
-	rb, sb := b(s0)
-	if sa != sb || ra.IsSuccess() != rb.IsSuccess() {
-		return false
+	for run := 0; run < 2; run++ {
+		s0 := zz.Int("s" + string(rune('0'+run)))
+		ra, sa := a(s0)
+		rb, sb := b(s0)
+		if sa != sb || ra.IsSuccess() != rb.IsSuccess() {
+			return false
+		}
+		if ra.IsSuccess() {
+			if !vhSliceEq(ra.Get(), rb.Get()) {
+				return false
+			}
+		} else if ra.Failed().Get() != rb.Failed().Get() {
+			return false
+		}
 	}
-	if ra.IsSuccess() {
-		return vhSliceEq(ra.Get(), rb.Get())
-	}
-	return ra.Failed().Get() == rb.Failed().Get()
+	return true
 }
 
 func vhEqSeq(a, b fp.StateT[int, fp.Seq[int]]) bool {
-	s0 := zz.Int("s0")
-	ra, sa := a(s0)
-	rb, sb := b(s0)
-	if sa != sb || ra.IsSuccess() != rb.IsSuccess() {
-		return false
+	for run := 0; run < 2; run++ {
+		s0 := zz.Int("s" + string(rune('0'+run)))
+		ra, sa := a(s0)
+		rb, sb := b(s0)
+		if sa != sb || ra.IsSuccess() != rb.IsSuccess() {
+			return false
+		}
+		if ra.IsSuccess() {
+			if !vhSliceEq(ra.Get(), rb.Get()) {
+				return false
+			}
+		} else if ra.Failed().Get() != rb.Failed().Get() {
+			return false
+		}
 	}
-	if ra.IsSuccess() {
-		return vhSliceEq(ra.Get(), rb.Get())
-	}
-	return ra.Failed().Get() == rb.Failed().Get()
+	return true
 }
 
 func vhDrain(it fp.Iterator[int]) []int {
